@@ -161,14 +161,17 @@ def direct_sparse(c):
     return out
 
 
-def sparse_failure(c, rng):
+def sparse_failure(c, rng, only=None):
+    """only: (tiling name, depth) -- replay of one recorded schedule"""
     n, fy, fx = c['data'].shape
     T = tilings(fy, fx)
+    if only is not None:
+        T = {only[0]: T[only[0]]}
     ref = direct_sparse(c).reshape(n, -1)
     sc = float(np.abs(ref).max()) + 1.0
     results = {}
     for name, tl in T.items():
-        for depth in (1, 2, 3):
+        for depth in ((1, 2, 3) if only is None else (only[1],)):
             if depth > n:
                 continue
             try:
@@ -205,7 +208,7 @@ def replay(body):
     a = body['args']
     if 'sparse' in body.get('call', ''):
         c = dict(pattern=cl.pattern_from_desc(a['pattern']), desc=a['pattern'], data=np.array(a['data'], dtype=np.float32), peaks=np.array(a['peaks']), steps=a['steps'])
-        fail, where = sparse_failure(c, np.random.default_rng(0))
+        fail, where = sparse_failure(c, np.random.default_rng(0), only=tuple(a['tiling']) if a.get('tiling') else None)
     else:
         c = dict(pattern=cl.pattern_from_desc(a['pattern']), desc=a['pattern'], data=np.array(a['data'], dtype=a['dtype']), peaks=np.array(a['peaks']),
                  zs=None if a['zero_shift'] is None else np.array(a['zero_shift']), zk=a['zero_shift_kind'], limit=a['limit'], upsample=a['upsample'], parts=a['partitions'],
